@@ -63,6 +63,16 @@ theorem C13_nonpositive {s s' : State} {t : Nat} {secs : Int} {g0 : Bool} {l : L
   unfold stepC at hst; rw [hp] at hst; cases hst
   simp [State.setC, hs]
 
+/-- `Till(till=<absolute time>)` has no such shortcut: while timers are enabled a Till object is always created and
+registered, even when the deadline has already passed (it is then due at once: `C13_at_most_one_interval_late` bounds its
+firing by one interval after its registration). -/
+theorem C13_absolute_deadline_is_registered {s s' : State} {t : Nat} {secs : Int} {g0 : Bool} {l : Label} (ht : t ≠ 0)
+    (hp : s.cpc t = .c0a secs g0) (hst : step s t = some (s', l)) :
+    s'.cpc t = (if g0 && s.started then .c1 secs else .idle) := by
+  unfold step at hst; simp only [ht, if_false] at hst
+  unfold stepC at hst; rw [hp] at hst; cases hst
+  cases h : (g0 && s.started) <;> simp [State.setC, h]
+
 /-- run thread `t` until it cannot move (or the fuel runs out) -/
 def settle : Nat → State → Nat → State
   | 0, s, _ => s
